@@ -65,7 +65,9 @@ enum Kind {
 	K_EXACT,   // hash value / anything that is compared or hashed as the literal integer: no equivalent representation
 	K_CHLE,    // challenge that both sides reduce to l_e bits (mpz_tdiv_r_2exp) before use
 	K_BIT,     // only the parity is used (mpz_get_ui(x) & 1)
-	K_CNT,     // decimal counter (security parameter): literal
+	K_CNT,     // decimal counter inside structured text (sizes, indices): literal
+	K_KAPPA,   // the verifier's security parameter as sent to the prover: the verifier performs its own kappa rounds,
+	           // so a larger value on the prover's side is not noticed; a smaller one starves the verifier
 	K_ROOT,    // root modulo a Rabin modulus m: only v^2 mod m matters (v = 1 is refused on top)
 	K_MODM,    // residue modulo a Rabin modulus m (checked with mpz_congruent_p)
 	K_TEXT,    // opaque literal text (magic strings, names, key ids)
@@ -74,7 +76,7 @@ enum Kind {
 
 inline const char *kind_name(Kind k)
 {
-	static const char *n[] = {"elem", "com", "exp", "expr", "exact", "chle", "bit", "cnt", "root", "modm", "text", "struct"};
+	static const char *n[] = {"elem", "com", "exp", "expr", "exact", "chle", "bit", "cnt", "kappa", "root", "modm", "text", "struct"};
 	return n[k];
 }
 
@@ -173,7 +175,7 @@ inline Expect expect(const Tag &t, const Z &v, const Z &w, std::string &cls)
 // the catalogue for one numeric position.  p, q: the moduli used to build p-1, p, q, v+q, v+p, p-v, v-q
 inline void catalogue(const Tag &t, const std::string &orig, const Z &cp, const Z &cq, std::vector<MutV> &out)
 {
-	int base = (t.k == K_CNT) ? 10 : TMCG_MPZ_IO_BASE;
+	int base = (t.k == K_CNT || t.k == K_KAPPA) ? 10 : TMCG_MPZ_IO_BASE;
 	Z v;
 	if (!v.parse(orig, base)) return;
 	const Z &p = (t.P ? *t.P : cp), &q = (t.Q ? *t.Q : cq);
@@ -199,13 +201,18 @@ inline void catalogue(const Tag &t, const std::string &orig, const Z &cp, const 
 		m.text = c[i].w.str(base);
 		m.ex = expect(t, v, c[i].w, m.cls);
 		if (t.k == K_CNT || t.k == K_EXACT) { if (mpz_cmp(v, c[i].w)) m.ex = t.covered ? X_REJECT : X_FREE; }
+		if (t.k == K_KAPPA && m.ex != X_SKIP)
+			m.ex = (t.covered && mpz_sgn(c[i].w.v) >= 0 && mpz_cmp(c[i].w, v) < 0) ? X_REJECT : X_FREE;   // strtoul semantics for the rest
 		if (m.ex != X_SKIP) out.push_back(m);
 	}
 	// a digit string longer than the library's line buffer (TMCG_MAX_VALUE_CHARS): cannot be a value of the protocol
 	MutV h;
 	h.name = "oversized";
 	h.text = std::string(TMCG_MAX_VALUE_CHARS + 64, '7');
-	h.ex = t.covered ? X_REJECT : X_FREE;
+	// asserted only where every huge value is out of range or compared literally; where only a residue / parity is
+	// used the (truncated) digit string may well be an equivalent value
+	bool strict = (t.k == K_ELEM || t.k == K_COM || t.k == K_EXPR || t.k == K_EXACT || t.k == K_CNT);
+	h.ex = (t.covered && strict) ? X_REJECT : X_FREE;
 	h.cls = "oversized";
 	out.push_back(h);
 }
